@@ -8,10 +8,13 @@ ID = "C19"
 HMODULE = "H_C19"
 FUNCTIONAL = True  # the property states gradient == formula; a disagreement is a failing input
 RULE = ("tf.GradientTape gradients of the real code compared in Coq with the model: (prod) "
-        "kfl_lib.custom_reduce_prod on float32 dyadic tensors of rank 1-4, every reduction axis (positive and "
+        "kfl_lib.custom_reduce_prod on float32 (tolerance 1e-5) and float64 (tolerance 1e-9) dyadic tensors of rank 1-4, "
+        "every reduction axis (positive and "
         "negative), with exact zeros planted per slice along the reduced axis (none / one / several / all, "
         "incl. -0.0) and a random upstream gradient; (kfl) KroneckerFactoredLattice layer output, gradient "
-        "w.r.t. kernel and scale for one unit, with kernels/inputs that make factors of the product exactly zero; "
+        "w.r.t. kernel, scale and inputs for one unit, with kernels/inputs that make factors of the product exactly "
+        "zero, clip_inputs on (points inside and outside the range) and off (points inside, and for half of the "
+        "layers also outside the range: extrapolated / faded-out weights); "
         "(hyper/simplex/pwl/cat) gradient of one output of a float64 Lattice / PWLCalibration / "
         "CategoricalCalibration layer w.r.t. its kernel, for two different kernels, against the model's "
         "interpolation weights at interior, vertex/keypoint, boundary and out-of-range inputs, tensor and list "
@@ -25,8 +28,10 @@ TRUSTED = ["model: Model/Gradients.v (hand-written from kronecker_factored_latti
            "what is checked is the hand-written grad_fn and the structure of the evaluation expressions",
            "reference for the KFL input gradient: the same evaluation with custom_reduce_prod replaced by "
            "tf.reduce_prod (testing only, not modelled)"]
-LIMITS = ["custom_reduce_prod's grad_fn only accepts float32 (float64 raises InvalidArgumentError in the backward "
-          "pass), so the product path is compared with tolerance 1e-5",
+LIMITS = ["custom_reduce_prod itself is compared in float32 (1e-5) and float64 (1e-9); the KroneckerFactoredLattice "
+          "LAYER cases run in float32 only (tolerance 1e-5)",
+          "KFL inputs at integer distance from a lattice vertex (kinks of the 1-D weights) carry no input-gradient "
+          "comparison; outside points with clip_inputs=False are chosen off those kinks",
           "PWLCalibration input_keypoints_type='learned_interior' (softmax of logits) is not covered; fixed keypoints only",
           "gradients w.r.t. INPUTS are compared with autodiff of the plain-product expression only (testing), "
           "at points where the interpolation is differentiable"]
@@ -56,9 +61,11 @@ def gen_prod(rng):
   n = shape[axis]
   others = [s for k, s in enumerate(shape) if k != axis % rank]
   m = int(np.prod(others)) if others else 1
+  # a third of the cases run in float64 (finer dyadics: multiples of 1/64; products of <= 4 of them are exact)
+  dtype = "float64" if rng.random() < 0.35 else "float32"
   rows, pats = [], []
   for _ in range(m):
-    row = [_nz(rng) for _ in range(n)]
+    row = [_nz(rng, 64, 4) if dtype == "float64" else _nz(rng) for _ in range(n)]
     pat = rng.choice(["none", "one", "one", "several", "several", "all"])
     if pat == "one":
       k = 1
@@ -76,7 +83,7 @@ def gen_prod(rng):
   t = np.moveaxis(arr, -1, axis % rank)
   g = [_dy(rng, -2, 2, 4) for _ in range(m)]
   g = np.array(g).reshape(others) if others else np.array(g[0])
-  return dict(kind="prod", shape=shape, axis=axis, t=t.tolist(), g=g.tolist(), pats=sorted(set(pats)))
+  return dict(kind="prod", shape=shape, axis=axis, t=t.tolist(), g=g.tolist(), pats=sorted(set(pats)), dtype=dtype)
 
 
 def _lattice_coord(rng, s, allow_out):
@@ -170,6 +177,9 @@ def gen_kfl(rng):
   units = rng.choice([1, 1, 2, 3])
   T = rng.randint(1, 3)
   clip = rng.random() < 0.7
+  # clip_inputs=False: half of the layers are also evaluated OUTSIDE [0, size-1], where the weights are
+  # extrapolated ([1 - x, x] for size 2) or fade out (hat weights); never at integer distance from a vertex
+  outside_noclip = not clip and rng.random() < 0.5
   xs = []
   for _ in range(units):
     x = []
@@ -177,7 +187,10 @@ def gen_kfl(rng):
       c = rng.random()
       if c < 0.45: x.append(float(rng.randint(0, size - 1)))
       elif c < 0.62 and clip: x.append(rng.choice([-0.75, size - 1 + 0.5]))
+      elif c < 0.7 and outside_noclip: x.append(rng.choice([-0.75, -1.5, size - 1 + 0.5, size + 0.25]))
       else: x.append(rng.randint(0, (size - 1) * 4 - 1) / 4.0 + 0.125)   # never an integer: differentiable in x
+    if outside_noclip and all(0.0 <= v <= size - 1.0 for v in x):
+      x[rng.randrange(dims)] = rng.choice([-0.75, -1.5, size - 1 + 0.5, size + 0.25])
     xs.append(x)
   # kernel[k][u*dims+d][t]
   kernel = [[[_nz(rng, 4, 2) for _ in range(T)] for _ in range(units * dims)] for _ in range(size)]
@@ -191,7 +204,7 @@ def gen_kfl(rng):
           nzero += 1
           xv = min(max(xs[u][d], 0.0), size - 1.0) if clip else xs[u][d]
           for k in range(size):
-            if abs(xv - k) < 1 or rng.random() < 0.3:
+            if abs(xv - k) < 1 or (size == 2 and not 0.0 <= xv <= 1.0) or rng.random() < 0.3:
               kernel[k][u * dims + d][t] = 0.0
   scale = [[_dy(rng, -2, 2, 4) for _ in range(T)] for _ in range(units)]
   bias = [_dy(rng, -2, 2, 4) for _ in range(units)]
@@ -209,7 +222,7 @@ def gen_descs(ctx):
       out.append(dict(kind="lattice", interp="hypercube", sizes=sizes, units=1, clip=False, as_list=as_list,
                       xs=[x], kernels=[[[0.5]] * sizes[0], [[-1.0 * k] for k in range(sizes[0])]]))
   for _ in range(ctx.n(160, 3000)): out.append(gen_prod(rng))
-  for _ in range(ctx.n(60, 1000)): out.append(gen_kfl(rng))
+  for _ in range(ctx.n(90, 1200)): out.append(gen_kfl(rng))
   for _ in range(ctx.n(110, 1000)): out.append(gen_lattice(rng, "hypercube"))
   for _ in range(ctx.n(110, 1000)): out.append(gen_lattice(rng, "simplex"))
   for _ in range(ctx.n(70, 1000)): out.append(gen_pwl(rng))
@@ -229,8 +242,11 @@ def _cube(c):
 
 
 def eval_prod(tf, kfl_lib, d):
-  t = tf.constant(np.array(d["t"], dtype=np.float32))
-  g = tf.constant(np.array(d["g"], dtype=np.float32))
+  f64 = d.get("dtype", "float32") == "float64"
+  npdt = np.float64 if f64 else np.float32
+  tol = TOL64 if f64 else TOL32
+  t = tf.constant(np.array(d["t"], dtype=npdt))
+  g = tf.constant(np.array(d["g"], dtype=npdt))
   rank = len(d["shape"])
   axis = d["axis"]
   n = d["shape"][axis]
@@ -254,14 +270,17 @@ def eval_prod(tf, kfl_lib, d):
         for j in range(n):
           if j != i:
             want *= fr[j]
-        if not _close(float(grows[r][i]), float(want), TOL32):
+        if not _close(float(grows[r][i]), float(want), tol):
           fail = ("custom_reduce_prod gradient differs from the derivative of the plain product: slice %r "
                   "(upstream %r) position %d: got %r, derivative %r" % ([float(v) for v in rows[r]], float(dys[r]), i,
                                                                         float(grows[r][i]), float(want)))
           break
       if fail: break
-  coq = "CProd %s %s %s %s" % (cqm(rows.tolist()), cql(dys.tolist()), cql(fwd.tolist()), cqm(grows.tolist()))
-  klass = "prod_ax%s_%s" % ("neg" if axis < 0 else "pos", "+".join(d["pats"]))
+  if y.dtype != t.dtype or grad.dtype != npdt:
+    fail = fail or "custom_reduce_prod on %s returned %s with a %s gradient" % (t.dtype.name, y.dtype.name, grad.dtype)
+  coq = "%s %s %s %s %s" % ("CProd64" if f64 else "CProd", cqm(rows.tolist()), cql(dys.tolist()), cql(fwd.tolist()),
+                            cqm(grows.tolist()))
+  klass = "prod%s_ax%s_%s" % ("64" if f64 else "", "neg" if axis < 0 else "pos", "+".join(d["pats"]))
   return Case(d, coq=coq, pred_fail=fail, nontrivial=(d["pats"] != ["none"]), klass=klass,
               info={"impl_grad": grows.tolist(), "impl_fwd": fwd.tolist()})
 
@@ -427,7 +446,9 @@ def eval_kfl(tf, tfl, kfl_lib, d):
   coq = "CKfl %s %s %s %s %s %s %s %s %s %s" % (
       cbool(d["clip"]), cnat(size), cql(d["xs"][u]), cq(d["bias"][u]), cql(d["scale"][u]), _cube(Ks),
       cq(out), _cube(gK), cql([float(v) for v in gs[u]]), clist([copt(g) for g in gxo]))
-  klass = "kfl_s%d_u%d_%s_zeros-%s" % (min(size, 3), min(units, 2), "clip" if d["clip"] else "noclip", d["zero_mode"])
+  outside = any(not 0.0 <= v <= size - 1.0 for v in d["xs"][u])
+  klass = "kfl_s%d_u%d_%s_zeros-%s" % (min(size, 3), min(units, 2),
+                                       "clip" if d["clip"] else ("noclip-outside" if outside else "noclip"), d["zero_mode"])
   return Case(d, coq=coq, pred_fail=fail, nontrivial=True, klass=klass,
               info={"impl_out": out, "impl_grad_kernel_unit": gK, "impl_grad_scale": gs[u].tolist(),
                     "impl_grad_inputs": gx.tolist(), "reference_grad_inputs": rgx.tolist()})
